@@ -195,6 +195,7 @@ fn with<R>(f: impl FnOnce(&mut VfsState) -> R) -> R {
 pub fn begin_run(seed: u64, dir: Option<&Path>) {
     install();
     foreign_release_now();
+    foreign_read_release_now();
     with(|s| {
         s.track_dir = dir.map(|d| d.to_path_buf());
         s.shadow.clear();
@@ -950,6 +951,35 @@ fn foreign_release_due() {
 
 pub fn foreign_release_now() {
     let h = FOREIGN.lock().unwrap().take();
+    if let Some(h) = h {
+        let _ = h.con.execute_batch("ROLLBACK");
+        drop(h);
+    }
+}
+
+// environment fault: a foreign READER (a backup job, a monitoring query, an admin shell) keeps a read
+// transaction open for a while. In WAL mode that blocks nobody, but no checkpoint can complete and the
+// write-ahead log keeps growing until the reader goes away.
+static FOREIGN_READ: Mutex<Option<ForeignHold>> = Mutex::new(None);
+
+pub fn foreign_read_hold(db: &Path, hold_us: i64) -> anyhow::Result<()> {
+    foreign_read_release_now();
+    let con = rusqlite::Connection::open(db)?;
+    con.execute_batch("BEGIN")?;
+    let _n: i64 = con.query_row("SELECT count(*) FROM sqlite_master", [], |r| r.get(0))?;
+    *FOREIGN_READ.lock().unwrap() = Some(ForeignHold { con, release_at: sched::now_us() + hold_us });
+    Ok(())
+}
+
+pub fn foreign_read_release_due() {
+    let due = matches!(FOREIGN_READ.lock().unwrap().as_ref(), Some(h) if sched::now_us() >= h.release_at);
+    if due {
+        foreign_read_release_now();
+    }
+}
+
+pub fn foreign_read_release_now() {
+    let h = FOREIGN_READ.lock().unwrap().take();
     if let Some(h) = h {
         let _ = h.con.execute_batch("ROLLBACK");
         drop(h);
